@@ -1328,7 +1328,12 @@ impl FixtureDatabase {
         Some(context)
     }
 
-    /// Get information about where to insert a new parameter in a function signature
+    /// Get information about where to insert a new parameter in a function signature.
+    ///
+    /// The closing parenthesis of the signature is located by matching brackets from the
+    /// `def` on `function_line`, so return annotations (`) -> None:`), signatures spread over
+    /// several lines and trailing commas are handled, and the search never runs into the
+    /// next function.
     pub fn get_function_param_insertion_info(
         &self,
         file_path: &Path,
@@ -1336,47 +1341,69 @@ impl FixtureDatabase {
     ) -> Option<ParamInsertionInfo> {
         let content = self.get_file_content(file_path)?;
         let lines: Vec<&str> = content.lines().collect();
+        let start = function_line.saturating_sub(1);
 
-        for i in (function_line.saturating_sub(1))..lines.len().min(function_line + 10) {
-            let line = lines[i];
-            if let Some(paren_pos) = line.find("):") {
-                let has_params = if let Some(open_pos) = line.find('(') {
-                    if open_pos < paren_pos {
-                        let params_section = &line[open_pos + 1..paren_pos];
-                        !params_section.trim().is_empty()
-                    } else {
-                        true
+        let mut depth: i32 = 0;
+        let mut opened = false;
+        let mut has_params = false;
+        let mut last_significant: Option<char> = None;
+
+        for (i, line) in lines.iter().enumerate().skip(start).take(200) {
+            let from = if i == start {
+                line.find("def ").map(|p| p + 4)?
+            } else {
+                0
+            };
+            let mut in_string: Option<char> = None;
+            for (pos, ch) in line.char_indices() {
+                if pos < from {
+                    continue;
+                }
+                if let Some(quote) = in_string {
+                    if ch == quote {
+                        in_string = None;
                     }
-                } else {
-                    let before_close = &line[..paren_pos];
-                    if !before_close.trim().is_empty() {
-                        true
-                    } else {
-                        let mut found_params = false;
-                        for prev_line in lines.iter().take(i).skip(function_line.saturating_sub(1))
-                        {
-                            if prev_line.contains('(') {
-                                if let Some(open_pos) = prev_line.find('(') {
-                                    let after_open = &prev_line[open_pos + 1..];
-                                    if !after_open.trim().is_empty() {
-                                        found_params = true;
-                                        break;
-                                    }
-                                }
-                            } else if !prev_line.trim().is_empty() {
-                                found_params = true;
-                                break;
-                            }
+                    continue;
+                }
+                match ch {
+                    '#' => break,
+                    '"' | '\'' => {
+                        in_string = Some(ch);
+                        has_params = true;
+                        last_significant = Some(ch);
+                    }
+                    '(' | '[' | '{' => {
+                        depth += 1;
+                        if !opened {
+                            opened = true;
+                        } else {
+                            has_params = true;
+                            last_significant = Some(ch);
                         }
-                        found_params
                     }
-                };
-
-                return Some(ParamInsertionInfo {
-                    line: i + 1,
-                    char_pos: paren_pos,
-                    needs_comma: has_params,
-                });
+                    ')' | ']' | '}' => {
+                        depth -= 1;
+                        if opened && depth == 0 {
+                            return Some(ParamInsertionInfo {
+                                line: i + 1,
+                                char_pos: pos,
+                                // after a trailing comma no further comma is needed
+                                needs_comma: has_params && last_significant != Some(','),
+                            });
+                        }
+                        last_significant = Some(ch);
+                    }
+                    c if c.is_whitespace() => {}
+                    c => {
+                        if opened {
+                            has_params = true;
+                            last_significant = Some(c);
+                        } else if c == ':' {
+                            // `def name:` without parentheses - nothing to insert into
+                            return None;
+                        }
+                    }
+                }
             }
         }
 
